@@ -137,6 +137,23 @@ def prove_group(cfile, g, workdir, canary=False):
     elif g.backend == 'cadical':
         cmd += ['--sat-solver', 'cadical']
     cmd += list(g.extra_cbmc)
+    if canary:
+        # only the canary assertion is checked in a canary build (reachability of the harness end)
+        rp = run(['cbmc', '--show-properties', '--json-ui', cur], 300, g.mem_gb)
+        try:
+            names = []
+            for item in json.loads(rp['out']):
+                for pr in item.get('properties', []):
+                    if 'canary' in pr.get('description', ''):
+                        names.append(pr['name'])
+            if not names:
+                res['reason'] = 'canary property not found'
+                return res
+            for nm in names:
+                cmd += ['--property', nm]
+        except Exception as e:
+            res['reason'] = 'cannot list properties for canary: %s' % e
+            return res
     cmd += [cur]
     res['cmd'] = ' '.join(cmd[:-1]) + ' <instrumented goto binary of %s>' % g.harness
     r = run(cmd, g.timeout, g.mem_gb)
@@ -182,7 +199,7 @@ def prove_group(cfile, g, workdir, canary=False):
         res['status'] = 'failed'
         res['failed'] = [summ(p) for p in failed]
         return res
-    if len(props) < g.min_props:
+    if len(props) < g.min_props and not canary:
         res['reason'] = 'vacuity guard: %d properties < floor %d' % (len(props), g.min_props)
         return res
     if g.expect_loop_props and res['loop_props'] < g.expect_loop_props:
